@@ -9,6 +9,7 @@ import JPV.Impl.Parse
 import JPV.Spec.Valid
 import JPV.Spec.NormalizedPath
 import JPV.Impl.Serialize
+import JPV.Impl.Api
 namespace JPV.Driver
 open JPV.Wire
 
@@ -111,6 +112,33 @@ def encTok (t : Impl.Token) : String := s!"{tokKindName t.kind}:{t.index}:{encSt
 def encCompileErr (e : Impl.Err) : String :=
   "err " ++ encErr e.kind ++ " " ++ (match e.offset with | some o => toString o | none => "none")
 
+def builtinFns : List (Str × Impl.Func) :=
+  [("length".toList, Impl.lengthFunc), ("count".toList, Impl.countFunc), ("value".toList, Impl.valueFunc)]
+
+def decOp : Sexp → Option Impl.Op
+  | .list [.atom "newenv", .atom md, .atom lo, .atom hi, .atom nd] => do
+      pure (.newEnv { maxDepth := ← md.toInt?, minIdx := ← lo.toInt?, maxIdx := ← hi.toInt?,
+                      nondet := nd = "1", funcs := builtinFns })
+  | .list [.atom "register", .atom e, .atom name, .list tys, .atom ret, .atom body] => do
+      let d ← decFn (.list [.atom "fn", .atom name, .list tys, .atom ret, .atom body])
+      pure (.register (← e.toNat?) d.name d.toImpl)
+  | .list [.atom "compile", .atom e, .atom q] => do pure (.compile (← e.toNat?) (← decStr q))
+  | .list [.atom "apply", .atom q, .atom doc] => do pure (.apply (← q.toNat?) (← decJsonAll doc))
+  | .list [.atom "envfind", .atom e, .atom q, .atom doc] => do
+      pure (.envFind (← e.toNat?) (← decStr q) (← decJsonAll doc))
+  | _ => none
+
+def encOut : Impl.Out → String
+  | .compiled q => s!"compiled {q}"
+  | .nodes ns => "nodes " ++ encNodes ns
+  | .raised k => "raised " ++ encErr k
+  | .unit => "unit"
+  | .noSuch => "nosuch"
+
+def runHist (w : Impl.World) : List Impl.Op → List String
+  | [] => []
+  | op :: ops => let r := w.step op; encOut r.2 :: runHist r.1 ops
+
 def handle (fields : List String) : String :=
   match fields with
   | ["iter", env, q, doc] =>
@@ -210,6 +238,15 @@ def handle (fields : List String) : String :=
   | ["py.repr", t] =>
       match decJsonAll t with
       | some (.num x) => "repr\t" ++ encStr (Py.reprFloat x)
+      | _ => "bad-request"
+  | ["hist", ops] =>
+      match readSexp ops with
+      | some (.list (.atom "ops" :: xs)) =>
+        match xs.mapM decOp with
+        | some os =>
+          let w0 : Impl.World := { envs := [(0, { funcs := builtinFns })], queries := [] }
+          "outs\t" ++ "\t".intercalate (runHist w0 os)
+        | none => "bad-request"
       | _ => "bad-request"
   | ["echo.json", doc] =>
       match decJsonAll doc with
